@@ -400,7 +400,9 @@ Definition py_cmp (op : cmpop) (a b : pv) : res bool :=
       do r <- match b with
               | PList l | PTuple l | PSet l => opt_res (mem_eq a l) "in"
               | PBytes l => match as_int a with
-                            | Some z => Ok (existsb (fun c => Z.of_N c =? z) l)
+                            | Some z => if (0 <=? z) && (z <? 256)
+                                        then Ok (existsb (fun c => Z.of_N c =? z) l)
+                                        else Exc "ValueError"     (* byte must be in range(0, 256) *)
                             | None => Unsupported "in bytes"
                             end
               | _ => Unsupported "in"
@@ -466,7 +468,7 @@ Definition to_sv (v : pv) : res PyStruct.value :=
   | PBool b => Ok (VBool b)
   | PBytes l => Ok (VBytes l)
   | PF64 b => Ok (VF64 b)
-  | PDy _ _ => Unsupported "packing a float"
+  | PDy n e => Ok (VDy n e)
   | _ => Exc "struct.error"
   end.
 
@@ -477,6 +479,7 @@ Definition of_sv (v : PyStruct.value) : pv :=
   | VBytes l => PBytes l
   | VF32 b => f32_to_pv b
   | VF64 b => f64_to_pv b
+  | VDy n e => let '(n', e') := dyad_norm n e in PDy n' e'   (* never produced by unpack *)
   end.
 
 Fixpoint map_res {A B} (f : A -> res B) (l : list A) : res (list B) :=
@@ -491,6 +494,11 @@ Fixpoint map_opt {A B} (f : A -> option B) (l : list A) : option (list B) :=
   | x :: r => match f x, map_opt f r with Some y, Some ys => Some (y :: ys) | _, _ => None end
   end.
 
+Definition is_pdy (v : pv) : bool := match v with PDy _ _ => true | _ => false end.
+
+(** CPython raises OverflowError for a finite float too large for 'f' but
+    struct.error for the other failures; when [pack] fails and a float was among the
+    arguments we fail closed instead of guessing which. *)
 Definition struct_pack (args : list pv) : res pv :=
   match args with
   | PStr f :: vs =>
@@ -499,7 +507,11 @@ Definition struct_pack (args : list pv) : res pv :=
       | Some fm =>
           if negb (native_safe fm) then Unsupported "native alignment" else
           do svs <- map_res to_sv vs;
-          match pack fm svs with Some b => Ok (PBytes b) | None => Exc "struct.error" end
+          match pack fm svs with
+          | Some b => Ok (PBytes b)
+          | None => if existsb is_pdy vs then Unsupported "float out of range for the format"
+                    else Exc "struct.error"
+          end
       end
   | _ => Unsupported "struct.pack arguments"
   end.
